@@ -123,6 +123,28 @@ CLAIMS = {
 NOT_YET = 'check not built yet in this session (rules planned in DESIGN.md section 4); not claimed until its rules exist'
 
 
+# clauses taken up after the plan (DESIGN.md 11.3): appended to the claim text / technique of the property
+ADDENDA = {
+    'C02': ('; GUARD at the routing sinks of the compound servlets', ' Also: a compound servlet hands a value to switch()/a member stage only when it is proven not an exception value (C02-7).'),
+    'C03': ('; typestate (Empty/Pending/Yielded) of accumulating containers, per-iteration conservation (MUSTPASS+COUNT), counter/yield balance for head', ' Also (C03-6..8): every pulled element is stored or yielded on every path of its iteration, a container is never yielded empty or twice and is flushed on every normal end, head counts exactly, tail keeps deque(maxlen=n); Buffer/AsyncBuffer/SyncIter relay every element once and end only on the end marker; SingleLane cannot lose a wake-up.'),
+    'C04': ('', ' Also: the argument of preprocess() in the single-item reader is a genuine input; every exception member of every EnsembleError is re-wrapped before the next hop (C04-7).'),
+    'C05': ('; PAIR of async producer and its driver', ' Also: async producers are driven by asyncio.run or an explicit shutdown_asyncgens on every exit (C05-6).'),
+    'C06': ('; GUARD on the backpressure flag; FRESH of the wait bound w.r.t. the clock', ' Also: with backpressure no wait on the admission condition is reachable (C06-7); a wait inside the re-check loop is bounded by the time remaining (C06-8).'),
+    'C07': ('; EXITS/COUNT of the stream clean-up', ' Also: the stop-flag and join-safety obligations of fifo_stream/async_fifo_stream (abandoned Server.stream) are decided here as C07-5.'),
+    'C09': ('; configuration pass-through (GUARD on `is None`)', ' Also: a value returned by user preprocess is not clean by derivation; the configured batch_wait_time reaches the loop unchanged (default only for None); a short batch is closed only after the queue was asked in that iteration.'),
+    'C11': ('; EXITS of the worker after its handshake', ' Also: after the handshake everything the worker runs lies inside the guarded region of Worker.start (C11-7).'),
+    'C12': ('; MUSTPASS in the catch-all handler; ORIGIN of the kwargs mapping', ' Also: Thread.run attaches the traceback text on every storing path (C12-6); the write end of the result pipe lives only in a mapping created by SpawnProcess.__init__ (C12-7).'),
+    'C14': ('; EXITS of the reply send; AGREE of get_server call sites', ' Also: an unserialisable reply is answered inside the serve loop for any Exception (C14-5); Server.create initialises the count entry only if absent (C14-6); the in-process shortcut is taken only for get_server(token.address) (C14-7).'),
+    'C15': ('; MUSTPASS in the rebuild function; implied-by test for guard narrowing', ' Also: the RemoteTraceback is attached on every path of the rebuild function; tracebacks are formatted with the chain; is_remote_exception and the EnsembleError re-wrap are not narrower than documented.'),
+    'C18': ('; WHO on the client in-flight table', ' Also: only the receiving task removes entries from the in-flight table whose keys are object addresses (C18-9); pipe ends are opened blocking.'),
+    'C19': ('; configuration pass-through; MUSTPASS of the queue query before a short batch is closed', ' Also: the configured wait reaches the loop unchanged; a short batch is closed only after the queue was asked in that iteration; the custom end marker is compared with ==.'),
+}
+COMMON_NOTE = COMMON_NOTE + (
+    ' Before the rules run, the syntax tree (never the files) is normalised: while/next loops are read as for loops, functions the rules look up by name that were renamed consistently are mapped back through body fingerprints (anchors.json), '
+    'and calls of helpers that do not exist in the confirmed tree are read in place when that is exact; every such mapping is printed and recorded in the evidence notes.'
+)
+
+
 def main():
     props = [json.loads(l) for l in open(os.path.join(HERE, 'properties.jsonl'))]
     checks, na = [], []
@@ -131,6 +153,8 @@ def main():
         have = os.path.exists(os.path.join(HERE, 'rules', f'{pid.lower()}.py'))
         if pid in CLAIMS and have:
             tech, text, ref = CLAIMS[pid]
+            if pid in ADDENDA:
+                tech, text = tech + ADDENDA[pid][0], text + ADDENDA[pid][1]
             checks.append(
                 {
                     'property_id': pid,
